@@ -68,7 +68,7 @@ func init() {
 				if t == rig.Thorough {
 					return len(c04Fns) * len(c04Shapes) * 40
 				}
-				return len(c04Fns) * len(c04Shapes) * 10
+				return len(c04Fns) * len(c04Shapes) * 25
 			},
 			Run:   c04Case,
 			Procs: 2,
